@@ -224,17 +224,17 @@ namespace fastscapelib
 
         neighbors_indices_type& get(const std::size_t& /*idx*/)
         {
-            return m_node_neighbors;
+            return storage();
         }
 
         neighbors_indices_type& get_storage(const std::size_t& /*idx*/)
         {
-            return m_node_neighbors;
+            return storage();
         }
 
         void store(const std::size_t& /*idx*/, const neighbors_indices_type neighbors_indices)
         {
-            m_node_neighbors = neighbors_indices;
+            storage() = neighbors_indices;
         }
 
         std::size_t cache_size() const
@@ -256,7 +256,13 @@ namespace fastscapelib
         }
 
     protected:
-        neighbors_indices_type m_node_neighbors;
+        // the temporary storage must not be shared between threads: a grid may be
+        // queried concurrently (e.g., by the multi-threaded single flow router)
+        static neighbors_indices_type& storage()
+        {
+            static thread_local neighbors_indices_type node_neighbors;
+            return node_neighbors;
+        }
     };
 
     //****************
